@@ -213,7 +213,7 @@ def invoke(program, cls_name, result_name, args):
         return Outcome(exc=e)
 
 
-def run_cmd(cls_name, inputs, params, fuzzy_inputs=False, libs=CSV_LIBS, program=None, list_param=None):
+def run_cmd(cls_name, inputs, params, fuzzy_inputs=False, libs=CSV_LIBS, program=None, list_param=None, refs=None):
     """inputs: list of arrays (already built). Single-input commands take InFieldName, A/B commands
     take A and B, list commands take InFieldNames. Returns (Outcome, program, producers)."""
     program = program or new_program(libs)
@@ -222,6 +222,8 @@ def run_cmd(cls_name, inputs, params, fuzzy_inputs=False, libs=CSV_LIBS, program
         nm = "In%d" % i
         standin(program, nm, a, fuzzy=fuzzy_inputs)
         names.append(nm)
+    if refs is not None:
+        names = [names[i] for i in refs]     # the same producer listed several times
     args = dict(params)
     shape = INPUT_STYLE.get(cls_name, "list")
     if shape == "one":
